@@ -347,4 +347,150 @@ theorem dsame_succ (S : Schema) (n : Nat) (hK : DK S n) (hSm : DSame S n) : DSam
     · contradiction
   · contradiction
 
+
+theorem Res.bind2_inv {x : Res EncSt} {f : EncSt → Res EncSt} {r : EncSt} (h : (x >>= f) = .ok r) :
+    ∃ a, x = .ok a ∧ f a = .ok r := by
+  cases x with
+  | ok a => exact ⟨a, rfl, h⟩
+  | err e => simp only [Res.err_bind] at h; contradiction
+  | panic m => simp only [Res.panic_bind] at h; contradiction
+
+theorem dcustom_succ (S : Schema) (n : Nat) (hP : PK S n) (hK : DK S n) (hSm : DSame S n) :
+    DCustom S (n + 1) := by
+  intro code tag v ver v' w items w2 h he
+  by_cases c1 : code = Cust.requestBatchItem
+  · subst c1
+    rw [normCustom_request] at h
+    rw [encCustom_request] at he
+    split at h
+    · rename_i op bid d x me
+      obtain ⟨_, h⟩ := ite_eq_some h
+      simp only [Val.field, List.getD_cons_succ, List.getD_cons_zero] at he
+      cases hpl : normK S n .iface T.requestPayload (.iface (some (d, x))) ver with
+      | none => simp only [hpl] at h; contradiction
+      | some p =>
+      obtain ⟨pl', u1⟩ := p
+      simp only [hpl] at h
+      obtain ⟨⟨plI, w1⟩, hple, he⟩ := Res.bind2_inv he
+      have hw := pk_enc_cell hP hpl hple
+      subst hw
+      cases hme : normK S n (.ptr (.struct (msgExtId S))) T.messageExtension me w1 with
+      | none => simp only [hme] at h; contradiction
+      | some q =>
+      obtain ⟨me', u2⟩ := q
+      obtain ⟨⟨meI, w3⟩, hmee, he⟩ := Res.bind2_inv he
+      simp only [Res.pure_eq, Res.ok.injEq, Prod.mk.injEq] at he
+      obtain ⟨rfl, -⟩ := he
+      have h1 := hK _ _ _ _ _ _ _ _ hpl hple
+      have h2 := hK _ _ _ _ _ _ _ _ hme hmee
+      rw [encList_struct_length, encList_length_append, encList_length_append]
+      simp only [Val.depth, Val.depthList] at h1 ⊢
+      omega
+    · contradiction
+  by_cases c2 : code = Cust.responseBatchItem
+  · subst c2
+    rw [normCustom_response'] at h
+    rw [encCustom_response] at he
+    split at h
+    · rename_i op bid st rs msg acv pl me
+      obtain ⟨_, h⟩ := ite_eq_some h
+      simp only [Val.field, List.getD_cons_succ, List.getD_cons_zero] at he
+      cases hpl : normK S n .iface T.responsePayload pl ver with
+      | none => simp only [hpl] at h; contradiction
+      | some p =>
+      obtain ⟨pl', u1⟩ := p
+      simp only [hpl] at h
+      obtain ⟨⟨plI, w1⟩, hple, he⟩ := Res.bind2_inv he
+      have hw := pk_enc_cell hP hpl hple
+      subst hw
+      cases hme : normK S n (.ptr (.struct (msgExtId S))) T.messageExtension me w1 with
+      | none => simp only [hme] at h; contradiction
+      | some q =>
+      obtain ⟨me', u2⟩ := q
+      obtain ⟨⟨meI, w3⟩, hmee, he⟩ := Res.bind2_inv he
+      simp only [Res.pure_eq, Res.ok.injEq, Prod.mk.injEq] at he
+      obtain ⟨rfl, -⟩ := he
+      have h1 := hK _ _ _ _ _ _ _ _ hpl hple
+      have h2 := hK _ _ _ _ _ _ _ _ hme hmee
+      rw [encList_struct_length, encList_length_append, encList_length_append]
+      simp only [Val.depth, Val.depthList] at ⊢
+      omega
+    · contradiction
+  by_cases c5 : code = Cust.unknownPayload
+  · subst c5
+    rw [normCustom_unknown] at h
+    rw [encCustom_unknown] at he
+    split at h
+    · rename_i its
+      simp only [Val.field, List.getD_cons_zero, Res.ok.injEq, Prod.mk.injEq] at he
+      obtain ⟨rfl, -⟩ := he
+      have := sizeList_le_length_aux its
+      rw [encList_struct_length]
+      simp only [Val.depth, Val.depthList]
+      omega
+    · contradiction
+  by_cases cu : isUnionCode code
+  · rw [normCustom_union S n code tag cu] at h
+    rw [encCustom_union S n code tag cu] at he
+    split at h
+    · rename_i fs
+      simp only at he
+      cases hx : normSameTag S n (customFieldKinds S code) tag fs ver with
+      | none => simp only [hx] at h; contradiction
+      | some p =>
+        obtain ⟨fs', w1⟩ := p
+        have := hSm _ _ _ _ _ _ _ _ hx he
+        simp only [Val.depth]
+        omega
+    · contradiction
+  · exfalso
+    rw [normCustom.eq_def] at h
+    simp only [isUnionCode] at cu
+    simp only [c1, c2, c5, cu, if_false] at h
+    contradiction
+
+theorem dall (S : Schema) (hU : S.unambiguous = true) (n : Nat) :
+    DK S n ∧ DSlice S n ∧ DFields S n ∧ DCustom S n ∧ DSame S n := by
+  induction n with
+  | zero =>
+    refine ⟨?_, ?_, ?_, ?_, ?_⟩
+    · intro k tag v ver v' w items w2 h; rw [normK_zero] at h; contradiction
+    · intro k tag xs ver xs' w items w2 h; rw [normSlice_zero] at h; contradiction
+    · intro fs vs ver vs' w items w2 h; rw [normFields_zero] at h; contradiction
+    · intro code tag v ver v' w items w2 h; rw [normCustom_zero] at h; contradiction
+    · intro ks tag xs ver xs' w items w2 h; rw [normSameTag_zero] at h; contradiction
+  | succ n ih =>
+    obtain ⟨hK, hSl, hF, hC, hSm⟩ := ih
+    have hP := (pall S hU n).k
+    exact ⟨dk_succ S n hK hSl hF hC, dslice_succ S n hP hK hSl, dfields_succ S n hP hK hF,
+      dcustom_succ S n hP hK hSm, dsame_succ S n hK hSm⟩
+
+/-- the decoder's fuel covers every well-formed value: no hypothesis on fuel is needed. -/
+theorem depth_bound (S : Schema) (hU : S.unambiguous = true) (d tag : Nat) (v v' : Val) (w : Option Ver)
+    (items : List Item) (w2 : Option Ver) (hwf : normTop S d tag v = some (v', w))
+    (he : encK S marshalFuel (S.dyn d).kind (topTag S d tag) v none = .ok (items, w2)) :
+    v.depth ≤ decFuel (encList items).length := by
+  unfold normTop at hwf
+  obtain ⟨_, hn⟩ := ite_eq_some hwf
+  have := (dall S hU marshalFuel).1 _ _ _ _ _ _ _ _ hn he
+  have hm : marshalFuel = 100000 := rfl
+  unfold decFuel
+  omega
+
+
+/-- a well-formed value has a dynamic type of the schema. -/
+theorem normTop_dyn_lt {S : Schema} {d tag : Nat} {v : Val} {r : Val × Option Ver}
+    (h : normTop S d tag v = some r) : d < S.dyns.length := by
+  unfold normTop at h
+  obtain ⟨hc, _⟩ := ite_eq_some h
+  simp only [Bool.and_eq_true] at hc
+  apply Decidable.byContradiction
+  intro hn
+  have hk : (S.dyn d).kind = .unsupported := by
+    unfold Schema.dyn
+    rw [List.getD_eq_getElem?_getD, List.getElem?_eq_none (by omega)]
+    rfl
+  rw [hk] at hc
+  simp [dynValOk, Kind.definite, Kind.scalar] at hc
+
 end Kmip
